@@ -90,6 +90,20 @@ def file_chain_cases(rng, n):
         layers = [fix_floats(s["merge"]["data"]) for s in c["steps"] if "merge" in s]
         if rng.random() < 0.35:
             layers.insert(rng.randrange(1, len(layers)) if rng.random() < 0.8 else rng.randrange(0, len(layers) + 1), None)
+        if rng.random() < 0.3:
+            # every integer of the chain moved beyond 32 bits by ONE injective map (equalities between the layers are preserved):
+            # the readers of the formats hand such integers over as different Go kinds before normalisation
+            def widen(v):
+                if isinstance(v, bool):
+                    return v
+                if isinstance(v, int) and abs(v) < 2**31:
+                    return v + 5000000000 if v >= 0 else v - 5000000000
+                if isinstance(v, dict):
+                    return {k: widen(x) for k, x in v.items()}
+                if isinstance(v, list):
+                    return [widen(x) for x in v]
+                return v
+            layers = [widen(l) for l in layers]
         share = rng.random() < 0.5
         if share and isinstance(layers[0], dict) and len(layers[0]) >= 1:
             # the base repeats one of its subtrees under further keys (written with a YAML anchor and aliases)
@@ -103,7 +117,7 @@ def file_chain_cases(rng, n):
                         layers[i] = {("zz1" if k == k0 else k): v for k, v in layers[i].items()}
                     elif r < 0.7:
                         layers[i] = {("zz2" if k == k0 else k): ({"in": v} if k == k0 else v) for k, v in layers[i].items()}
-        layout, top = fscheck.chain_layout(rng, layers, share=share)
+        layout, top = fscheck.chain_layout(rng, layers, exts=("json", "yaml", "jsonl", "yml", "toml", "json"), share=share)
         out.append({"layout": layout, "opts": {"inputs": [top], "format": "json"}, "meta": {"kind": ("null-layer" if None in layers else "plain") + ("+anchors" if share else "")}})
     return out
 
